@@ -1,1 +1,4 @@
 // hook file for ntpd/src/daemon/spawn/nts_pool.rs: declares the per-property harness modules
+#[cfg(any(verif_all, verif_c35, verif_c35n))]
+#[path = "/verif/harness/ntpd/c35n.rs"]
+mod c35n;
